@@ -98,6 +98,7 @@ type connEnv struct {
 
 	session  int64
 	overflow atomic.Bool
+	keepBad  bool // undecodable client frames are judged by the caller (C04 arm), not reported as a harness problem
 }
 
 type connOpts struct {
@@ -251,6 +252,9 @@ func (e *connEnv) run(respond func(cf clientFrame), body func(ctx context.Contex
 	bad := append([]string(nil), e.srv.bad...)
 	e.srv.mu.Unlock()
 	for _, b := range bad {
+		if e.keepBad {
+			break
+		}
 		// the client wrote something the reference model cannot read: C04's business, but
 		// then this run's wire observations are incomplete.
 		e.c.Inconclusive(b)
